@@ -58,6 +58,7 @@ class AbsFile(io.IOBase):
         self.nflush = 0
         self.fail_at = fail_at
         self.log = []
+        self.eof_raises = None  # decompressing readers (gzip / bz2 / lzma) over a file that lacks its end-of-stream marker: a read that finds nothing left raises EOFError
 
     # ---- helpers
     def _cmp(self, a, b):
@@ -177,6 +178,8 @@ class AbsFile(io.IOBase):
             break
         pieces = [p for p in pieces if not (isinstance(p, (bytes, bytearray)) and len(p) == 0)]
         if not pieces:
+            if self.eof_raises is not None and not (isinstance(n, int) and n == 0):
+                raise PyRaise(self.eof_raises)
             return b""
         if len(pieces) > 1:
             pieces = [p.concrete if isinstance(p, MPBytes) and p.concrete is not None else p for p in pieces]
